@@ -491,6 +491,44 @@ func c18(c *Ctx) {
 		c.R.Check(good, load.FuncName(ex)+": empty names = wildcard", c.pos(ex.Pos()), "an empty ResourceNames list is separated from non-empty ones (and mapped to the wildcard)", "Expand does not treat an empty ResourceNames list specially")
 	}
 
+	c.R.Rule("R18.8", "no allow-list, no grant: the validator answers only after it read the allow-list ClusterRole; a binding is rewritten whenever its subjects differ in either direction", 3,
+		"with the allow-list role missing every request would count as approved; a subject dropped from the desired binding would keep its access")
+	if vp := c.method(pkg, "ClusterRoleBackedValidator", "ValidatePermissionRequests"); vp != nil {
+		gets := calls(vp, clientGet)
+		if c.expect("Get(ClusterRole)", len(gets), 1, vp) {
+			ev := cfgx.ErrEvents(gets[0])
+			c.R.Check(len(ev.Filtered) == 0, site(gets[0])+" unfiltered", c.pos(gets[0].Pos()), "any failure to read the allow-list (NotFound included) is an error", "the error of reading the allow-list ClusterRole passes through "+strings.Join(ev.Filtered, ",")+": a missing allow-list yields (nil, nil), i.e. nothing rejected")
+			n := 0
+			for _, er := range cfgx.ErrorReturnsFrom(entryEdges(vp), nil) {
+				if er.NonNil || classifyErr(er.Val) == "nonnil" {
+					continue
+				}
+				n++
+				c.requireCross(load.FuncName(vp)+": verdict only after the allow-list was read #"+itoa(n), er.At, okEdges(gets[0]), "ok(Get(allow-list ClusterRole))")
+			}
+			if n == 0 {
+				c.R.Unknown(load.FuncName(vp)+": verdict returns", c.pos(vp.Pos()), "no return without error found")
+			}
+		}
+	}
+	if bd := c.fn("internal/controller/rbac/provider/binding", "ClusterRoleBindingsDiffer"); bd != nil {
+		sym := false
+		for _, x := range cfgx.Calls(bd, nil) {
+			switch cfgx.CalleeName(x) {
+			case "github.com/google/go-cmp/cmp.Equal", "reflect.DeepEqual":
+				a := x.Common().Args
+				_, p0, _ := flow.AccessPathC(underIface(a[0]))
+				_, p1, _ := flow.AccessPathC(underIface(a[1]))
+				r0, _, _ := flow.AccessPathC(underIface(a[0]))
+				r1, _, _ := flow.AccessPathC(underIface(a[1]))
+				if p0 == "Subjects" && p1 == "Subjects" && r0 != r1 {
+					sym = true
+				}
+			}
+		}
+		c.R.Check(sym, load.FuncName(bd)+": subjects compared as whole values", c.pos(bd.Pos()), "current and desired subjects are compared with a symmetric whole-value equality", "the subjects of the current and the desired binding are not compared with cmp.Equal/reflect.DeepEqual: a one-sided comparison leaves stale subjects bound")
+	}
+
 	c.R.Rule("R18.7", "roles, bindings and XRD roles are applied with MustBeControllableBy(owner.GetUID())", 3,
 		"a ClusterRole/Binding with the derived name that another owner controls would be overwritten")
 	for _, a := range applies {
